@@ -34,7 +34,9 @@ void    *h_realloc(void *p, size_t n);
 extern int (*env_alloc_hook)(long k);   /* return 1 to fail this allocation */
 
 /* record-protection seam (env.c): observe every AEAD/CBC seal made by the TLS layer */
-enum { ENV_OP_GCM_INIT = 1, ENV_OP_GCM_READY, ENV_OP_GCM_ENC, ENV_OP_CBC_INIT, ENV_OP_CBC_ENC, ENV_OP_CHACHA_INIT, ENV_OP_CHACHA_ENC };
+/* ENV_OP_MAC_CREATE / ENV_OP_MAC_VERIFY: the TLS <= 1.2 record MAC (tlsHMACSha1 / tlsHMACSha2) is about to be computed:
+ * a = MAC key, b = the 8-byte sequence number it will bind (DTLS: epoch + record sequence number) */
+enum { ENV_OP_GCM_INIT = 1, ENV_OP_GCM_READY, ENV_OP_GCM_ENC, ENV_OP_CBC_INIT, ENV_OP_CBC_ENC, ENV_OP_CHACHA_INIT, ENV_OP_CHACHA_ENC, ENV_OP_MAC_CREATE, ENV_OP_MAC_VERIFY };
 extern void (*env_crypto_hook)(int op, const void *ctx, const unsigned char *a, int alen, const unsigned char *b, unsigned blen);
 
 /* key-log seam (env.c): most recent psHkdfExpandLabel derivations */
